@@ -27,6 +27,7 @@ fn usage() -> ! {
     devlist <cases.ndjson>                run both device-list extractors and exclusion\n\
     svc <cases.ndjson>                    build_service_text for pattern lists\n\
     svcscalars                            build_service_text for every Unicode scalar, compressed\n\
+    svcfile <cases.ndjson>                the same projection of unit texts written by the real binary\n\
     wire <cases.ndjson>                   DevInputWriter::send / DevInputReader::next over a pipe\n\
     loop <schedules.ndjson>               run the real per-device loop under scripted schedules");
   std::process::exit(2);
@@ -49,6 +50,7 @@ fn main() {
     "devlist" => { if rest.len() != 1 { usage(); } cases::cmd_devlist(&rest[0]) },
     "svc" => { if rest.len() != 1 { usage(); } cases::cmd_svc(&rest[0]) },
     "svcscalars" => cases::cmd_svcscalars(),
+    "svcfile" => { if rest.len() != 1 { usage(); } cases::cmd_svcfile(&rest[0]) },
     "wire" => { if rest.len() != 1 { usage(); } cases::cmd_wire(&rest[0]) },
     "loop" => { if rest.len() != 1 { usage(); } looprun::cmd_loop(&rest[0]) },
     _ => usage()
